@@ -178,6 +178,19 @@ def check(rep):
             if failed:
                 break
         distinct.add((tuple(texts), tuple(steps)))
+    # observation is not an action: reading the accessors of a molecule while it grows (element by element, as Molecule.generate does)
+    # must leave the result what the one-shot generation with the same seed gives
+    import genrun
+    observed = 0
+    for i, text in enumerate(list(dict.fromkeys(pool))[: (50 if quick else 600)]):
+        r = genrun.stepwise_observed(text, 500 + i)
+        if r is None:
+            continue
+        observed += 1
+        evaluations += 1
+        for b in r[1]:
+            rep.fail("oracle", b, {"text": text, "seed": 500 + i, "mode": "element by element, accessors read in between"}, expected="the one-shot molecule", observed=b)
+    ophist["stepwise_observed"] = observed
     rep.coverage.update({"evaluations": evaluations, "distinct_nontrivial": len(distinct), "histories": len(plans), "global_state_sweep_texts": sweep, "baselines_in_fresh_process": len(keys), "operations": ophist,
                          "rule": "random operation histories (4-12 steps over 1-4 live objects of every archetype): generate with a supplied seeded generator, generate with the "
                                  "(re-seeded) global generator, print, both graphs, mirror, mutation of the copies returned by .elements and of returned molecules, re-parse, typing, "
@@ -201,5 +214,10 @@ def replay(case):
             outs.append(gbigsmiles.Molecule(t).generate(rng=np.random.default_rng(seed)).smiles)
             print(f"global state {gstate}: {outs[-1]}")
         return 0 if len(set(outs)) == 1 else 1
+    if str(c.get("mode", "")).startswith("element by element"):
+        import genrun
+        r = genrun.stepwise_observed(c["text"], c["seed"])
+        print("element by element with the accessors read in between:", r)
+        return 1 if (r is None or r[0] or r[1]) else 0
     print(c)
     return 1
